@@ -15,41 +15,74 @@ pub fn st(s: &PanicState) -> String {
     )
 }
 
-/// the instruction bodies, copied call-for-call from panic_pause.rs / panic_unpause.rs /
-/// panic_unpause_permissionless.rs (the instructions themselves are also driven through
-/// `marginfi::entry` at Level B).
-pub fn ix_pause(s: &mut PanicState, now: i64) -> Result<(), u32> {
-    let mut t = *s;
-    t.unpause_if_expired(now);
-    match t.pause(now) {
-        Ok(()) => {
-            *s = t;
-            Ok(())
+/// The three pause instructions, executed as the REAL handlers through real dispatch (`marginfi::entry`): a tiny
+/// world holding only the fee state (whose panic state is set to `s`) and the global fee admin; the clock is set to
+/// `now`; the resulting panic state is read back from the account bytes.
+struct PanicWorld {
+    w: crate::world::World,
+    fee_admin: anchor_lang::prelude::Pubkey,
+    fee_state: anchor_lang::prelude::Pubkey,
+}
+
+thread_local! {
+    static PW: std::cell::RefCell<Option<PanicWorld>> = const { std::cell::RefCell::new(None) };
+}
+
+fn with_world<R>(f: impl FnOnce(&mut PanicWorld) -> R) -> R {
+    PW.with(|c| {
+        let mut b = c.borrow_mut();
+        if b.is_none() {
+            crate::world::install_stubs();
+            let mut w = crate::world::World::new();
+            let fee_admin = w.add_wallet(10_000_000_000);
+            let fee_wallet = w.add_wallet(0);
+            let fee_state = w.add_fee_state(fee_admin, fee_wallet, Default::default());
+            *b = Some(PanicWorld { w, fee_admin, fee_state });
         }
-        Err(e) => Err(crate::errcode(e)),
-    }
+        f(b.as_mut().unwrap())
+    })
+}
+
+fn run_real(s: &mut PanicState, now: i64, which: u8) -> Result<(), u32> {
+    with_world(|pw| {
+        let mut fs = pw.w.fee_state(&pw.fee_state);
+        fs.panic_state = *s;
+        let key = pw.fee_state;
+        pw.w.set_fee_state(&key, &fs);
+        pw.w.set_clock(now, 1000);
+        let ix = match which {
+            0 => crate::world::ix::panic_pause(pw.fee_admin),
+            1 => crate::world::ix::panic_unpause(pw.fee_admin),
+            _ => crate::world::ix::panic_unpause_permissionless(),
+        };
+        match pw.w.exec(&ix) {
+            Ok(()) => {
+                *s = pw.w.fee_state(&pw.fee_state).panic_state;
+                Ok(())
+            }
+            Err(e) => Err(e.code().unwrap_or(u32::MAX)),
+        }
+    })
+}
+
+pub fn ix_pause(s: &mut PanicState, now: i64) -> Result<(), u32> {
+    run_real(s, now, 0)
 }
 
 pub fn ix_unpause(s: &mut PanicState, now: i64) -> Result<(), &'static str> {
-    if !s.is_paused_flag() {
-        return Err("notpaused");
-    }
-    s.unpause_if_expired(now);
-    if s.is_paused_flag() {
-        s.unpause();
-    }
-    Ok(())
+    run_real(s, now, 1).map_err(|c| match c {
+        6083 => "notpaused",
+        6082 => "notexpired",
+        _ => "other",
+    })
 }
 
 pub fn ix_unpause_permissionless(s: &mut PanicState, now: i64) -> Result<(), &'static str> {
-    if !s.is_paused_flag() {
-        return Err("notpaused");
-    }
-    if !s.is_expired(now) {
-        return Err("notexpired");
-    }
-    s.unpause();
-    Ok(())
+    run_real(s, now, 2).map_err(|c| match c {
+        6083 => "notpaused",
+        6082 => "notexpired",
+        _ => "other",
+    })
 }
 
 pub fn gen(rng: &mut Rng, n: usize, out: &mut Vec<String>) {
